@@ -62,6 +62,26 @@ pub fn run(case: &Value, _seed: u64) -> Outcome {
         } else {
             check(&mut o, case["x"].as_str().unwrap_or(""), &case["xp"], &case["xs"], true);
         }
+        // SCALED variant of a wrapped message whose outcome is Ok: every payload line 1500 times (each also made long),
+        // every signature line 300 times - the expectation scales with the construction
+        if kind == "wrapped" && case["x"] == "Ok" && map == 0 && crate::conc::hash64(&o.key) % 4 == 0 {
+            let (pi, si) = (idx(&case["xp"]), idx(&case["xs"]));
+            let mut lines: Vec<String> = vec![];
+            let (mut wp, mut ws) = (String::new(), String::new());
+            for (i, t) in texts.iter().enumerate() {
+                if pi.contains(&i) { let long = if t.is_empty() { String::new() } else { format!("{}{}", t, " é日x".repeat(40)) }; for _ in 0..1500 { lines.push(long.clone()); wp.push_str(&long); wp.push('\n'); } }
+                else if si.contains(&i) { for _ in 0..300 { lines.push(t.clone()); ws.push_str(t); } }
+                else { lines.push(t.clone()); }
+            }
+            let mut big = lines.join("\n"); if lf { big.push('\n'); }
+            let f2 = vec![format!("kind:{}", kind), "scaled".to_string()];
+            o.evals += 1;
+            match guarded("strip_pgp_signature", || strip_pgp_signature(&big)) {
+                Ok(Ok((p, Some(sg)))) => { if p != wp || sg != ws { o.v("C19", "outcome", "strip_pgp_signature", "mismatch", &f2, &big, format!("scaled message: payload {} bytes (expected {}), signature {} bytes (expected {})", p.len(), wp.len(), sg.len(), ws.len())); } }
+                Ok(other) => o.v("C19", "outcome", "strip_pgp_signature", "mismatch", &f2, &big, format!("scaled message: outcome {:?} expected Ok", other.map(|(p, s)| (p.len(), s.map(|x| x.len()))).map_err(|e| err_name(&e)))),
+                Err(m) => { o.v("C02", "total", "strip_pgp_signature", "panic", &f2, &big, m.clone()); o.v("C19", "outcome", "strip_pgp_signature", "panic", &f2, &big, m); }
+            }
+        }
         if o.sample.is_null() && kind == "wrapped" && classes.len() > 5 { o.sample = json!({"input": input, "expected": case["x"], "got": got}); }
     }
     o
